@@ -47,7 +47,7 @@ theorem moves_V (hC : Lawful C VC WC) {α : Type} {ga : σ → α} (hG : Ghost C
 
 /-- the intersection built by `Intersection::new`, after any legal mix of `advance` and `seek`:
 `score()` at the current document `d` is the sum of `g c d` over ALL its children -/
-theorem score_after_moves (hC : Lawful C VC WC) (hG : Ghost C g) (hg : ∀ c, (C.score c).1 = g c (C.doc c))
+theorem score_after_moves (hC : Lawful C VC WC) (hG : Ghost C g) (hg : ∀ {c l}, VC c l → l ≠ [] → (C.score c).1 = g c (C.doc c))
     (fx : Fix) (dense : Bool) {l r : σ} {os : List σ} {ll lr : List Nat} {los : List (List Nat)}
     (hL : VC l ll) (hR : VC r lr) (hO : All2 VC os los) (ms : List BUnion.Move)
     (hl : BUnion.legalMoves (Common ll lr los) ms) :
@@ -81,6 +81,6 @@ theorem vecs_score {H : Nat} (hH : 64 ∣ H) (hH0 : 0 < H) (fx : Fix) (children 
       ((ds Vec.ds H fx).score s).1
         = gsum (fun c (_ : Nat) => c.score) (children.map (fun p => Vec.init p.1 p.2)) (children.map (·.1)) s.doc) :=
   score_after_moves (C := Vec.ds) (VC := Vec.V) (WC := defaultW Vec.V) (lawful_ofCore _ _ _ _ _ Vec.core)
-    (fun h => h) Inter.vec_ghost (fun _ => rfl) hH hH0 fx (all2_vec_init children hs) hU ms hl
+    (fun h => h) Inter.vec_ghost (fun _ _ => rfl) hH hH0 fx (all2_vec_init children hs) hU ms hl
 
 end TantivyModel.DocSet.BUnion
